@@ -101,7 +101,10 @@ fn replay_subsets(vals: &[u64], case: &Value, wm: &WaveletMatrix, core: &WMCore,
     let core_size = core.size_in_bytes();
     let choices: Vec<(String, Box<dyn Fn(usize) -> u8>)> = (0..8u8).map(|s| (format!("every level with subset {}", s), Box::new(move |_l: usize| s) as Box<dyn Fn(usize) -> u8>))
         .chain([("level l with subset (3l + 1) mod 8".to_string(), Box::new(|l: usize| ((3 * l + 1) % 8) as u8) as Box<dyn Fn(usize) -> u8>),
-                ("level l with subset (5l + 3) mod 8".to_string(), Box::new(|l: usize| ((5 * l + 3) % 8) as u8) as Box<dyn Fn(usize) -> u8>)]).collect();
+                ("level l with subset (5l + 3) mod 8".to_string(), Box::new(|l: usize| ((5 * l + 3) % 8) as u8) as Box<dyn Fn(usize) -> u8>),
+                ("level 0 with every support, the other levels with none".to_string(), Box::new(|l: usize| if l == 0 { 7u8 } else { 0 }) as Box<dyn Fn(usize) -> u8>),
+                ("level 0 with no support, the other levels with every one".to_string(), Box::new(|l: usize| if l == 0 { 0u8 } else { 7 }) as Box<dyn Fn(usize) -> u8>),
+                ("the last level with no support, the other levels with every one".to_string(), Box::new(|l: usize| if l + 1 == 64 { 0u8 } else { 7 - (l % 2) as u8 * 7 }) as Box<dyn Fn(usize) -> u8>)]).collect();
     for (ci, (what, f)) in choices.iter().enumerate() {
         let ctx = |op: &str| json!({"kind": "wm", "vals": case["vals"], "type": "u64", "op": op, "supports in the file": what});
         let r = guarded(|| {
